@@ -25,7 +25,7 @@ def units(tier):
     return bulkiou.units() + [u for u in segprims.annotator_units() if "Edge" in u.name] + primitives.units(SEGP) + useractions.units(UA_ALL, SEG)
 
 
-def bounded(tier, seed):
+def _bounded(tier, seed):
     from pyvc.native_bridge import bounded_harness, bounded_paint
     return [bounded_harness(tier, "C09", "iou-oracle", "iou = |A&B|/|A|B| per edge after every edit/undo/redo, after bulk computation at construction "
                             "and after enable_features", seed, segonly=True),
@@ -35,3 +35,8 @@ def bounded(tier, seed):
 def witness(label, failure, seed):
     from pyvc.native_bridge import tracks_witness
     return tracks_witness("C09", label, failure, seed, extra=["--segonly"])
+
+
+def bounded(tier, seed):
+    from ._common import model_checks
+    return _bounded(tier, seed) + model_checks(tier, "networkx,compute_ious", shape=True, seed=seed)
